@@ -767,3 +767,167 @@ Proof.
   - unfold opts at 1. destruct (snap_tasks_members (map (fun p : point => last p 0) out) opts Hne) as [L M]. rewrite map_length in L.
     split; [exact L|]. eapply Forall_impl; [|exact M]. intros c. apply In_InAQ.
 Qed.
+
+(* ---- random / initialisation suggestions *)
+Definition prior_valid (p : DS.prior) : Prop := match p with DS.Normal _ s => ~ s == 0 | _ => True end.
+Lemma prior_draw_in_comp c p x : prior_valid p -> DP.draw_ok (DS.request_prior c p) x -> DP.in_comp c x.
+Proof.
+  intros Hv H. destruct p as [|m s|a b].
+  - rewrite DP.prior_absent in H. apply DP.full_support. exact H.
+  - destruct c; simpl in H; try contradiction. destruct (DP.prior_normal_truncated lo hi m s x Hv) as (a' & b' & E & _ & _ & Hiff).
+    simpl in E. injection E as <- <-. apply Hiff. exact H.
+  - destruct c; simpl in H; try contradiction. apply (proj2 (DP.prior_beta_scaled lo hi a b x)). exact H.
+Qed.
+Lemma prior_rows_in_domain : forall dd ps n cols, length ps = length dd -> Forall prior_valid ps ->
+  DP.cols_ok n (DS.prior_requests dd ps) cols -> forall i, (i < n)%nat -> DP.In_domain dd (map (fun col => nth i col 0) cols).
+Proof.
+  induction dd as [|c dd IH]; intros [|p ps] n cols Hl Hv H i Hi; simpl in Hl; try discriminate; cbn in H; inversion H; subst; cbn.
+  - constructor.
+  - inversion Hv; subst. constructor.
+    + eapply prior_draw_in_comp; [eassumption|]. destruct H2 as [L F]. rewrite Forall_forall in F. apply F. apply nth_In. lia.
+    + eapply IH; try eassumption. lia.
+Qed.
+(* contract of the draws of create_random_suggestions / RandomSearchNextPoints / initilization_sequence *)
+Definition random_contract (d : domain) (ps : list DS.prior) (n : Z) (pcols : list (list Q)) (q : qorc) : Prop :=
+  match DS.view_path ps (is_constrained d) with
+  | DS.UsePriors => length ps = length (comps d) /\ Forall prior_valid ps /\ DP.cols_ok (Z.to_nat n) (prior_reqs d ps) pcols
+  | DS.UseQuasi => qorc_ok d n q
+  end.
+Theorem random_pts_ok d ps n pcols q pts : wf_domain d = true -> random_contract d ps n pcols q ->
+  random_pts d ps n pcols q = Some pts ->
+  Forall (Admissible d) pts /\ (length pts <= Z.to_nat n)%nat /\ (is_int_constrained d = false -> length pts = Z.to_nat n).
+Proof.
+  intros Hwf Hc H. unfold random_pts, random_contract in *. destruct (DS.view_path ps (is_constrained d)) eqn:Ep.
+  - apply DP.view_dispatch in Ep as [_ Eu]. destruct Hc as (Hl & Hv & Hcols). injection H as <-. split.
+    + unfold DS.rows_of. apply Forall_forall. intros p Hp. apply in_map_iff in Hp as (i & <- & Hi). apply in_seq in Hi.
+      apply unconstrained_adm; [exact Eu|]. eapply prior_rows_in_domain; try eassumption; [unfold ddom; rewrite map_length; exact Hl|lia].
+    + rewrite DP.rows_of_length. split; [lia|reflexivity].
+  - eapply quasi_points_ok; eassumption.
+Qed.
+(* what numpy.random.choice(options, size=k[, p=softmax]) returns: k members of the options *)
+Definition draws_ok (opts : list Q) (k : nat) (draws : list Q) : Prop := length draws = k /\ Forall (fun c => InA Qeq c opts) draws.
+Lemma with_costs_ok opts pts draws : (opts <> [] -> draws_ok opts (length pts) draws) ->
+  costs_ok opts (length (r_points (with_costs opts pts draws))) (r_costs (with_costs opts pts draws)).
+Proof. intros H. unfold with_costs. destruct opts; simpl; [exact I|]. apply H. discriminate. Qed.
+
+Theorem tail_random_admissible d opts ps n pcols q draws r : wf_domain d = true -> (0 <= n)%Z ->
+  random_contract d ps n pcols q -> (forall pts, random_pts d ps n pcols q = Some pts -> opts <> [] -> draws_ok opts (length pts) draws) ->
+  random_tail d opts ps n pcols q draws = Some r -> resp_ok d opts (Z.to_nat n) r.
+Proof.
+  intros Hwf Hn Hc Hd H. unfold random_tail, obind in H. destruct (random_pts d ps n pcols q) as [pts|] eqn:E; [|discriminate].
+  injection H as <-. destruct (random_pts_ok d ps n pcols q pts Hwf Hc E) as (A & B & C).
+  split; [exact A|]. split; [apply count_from; [exact B|intros _; exact C]|apply with_costs_ok; apply Hd; reflexivity].
+Qed.
+
+(* ---- SPENextPoints.draw_samples *)
+Definition batch_rows (batches : list (list (row * Q * Q))) : list row := flat_map (map (fun t => fst (fst t))) batches.
+Lemma accept_sub b x : In x (accept b) -> In x (map (fun t => fst (fst t)) b).
+Proof. unfold accept. intros H. apply in_map_iff in H as (t & <- & Ht). apply filter_In in Ht as [Ht _]. apply (in_map (fun t0 : row * Q * Q => fst (fst t0))). exact Ht. Qed.
+Lemma spe_loop_sub n bsz limit : forall batches samples rej x,
+  In x (fst (spe_loop n bsz limit batches samples rej)) -> In x samples \/ In x (batch_rows batches).
+Proof.
+  induction batches as [|b r IH]; intros samples rej x H; cbn [spe_loop] in H.
+  - destruct (_ && _); left; exact H.
+  - destruct (_ && _); [|left; exact H]. destruct (IH _ _ _ H) as [Hs|Hr].
+    + apply in_app_iff in Hs as [Hs|Hs]; [left; exact Hs|right]. unfold batch_rows. simpl. apply in_app_iff. left. apply accept_sub. exact Hs.
+    + right. unfold batch_rows. simpl. apply in_app_iff. right. exact Hr.
+Qed.
+Lemma nth_rows_sub rows ix x : In x (nth_rows rows ix) -> In x rows.
+Proof. unfold nth_rows. rewrite in_flat_map. intros (j & _ & H). destruct (nth_error rows j) eqn:E; [|destruct H]. destruct H as [<-|[]]. eapply nth_error_In; exact E. Qed.
+Lemma nth_rows_len rows : forall ix, Forall (fun j => (j < length rows)%nat) ix -> length (nth_rows rows ix) = length ix.
+Proof.
+  induction ix as [|j ix IH]; intros H; [reflexivity|]. inversion H; subst. unfold nth_rows in *. simpl.
+  destruct (nth_error rows j) eqn:E; [|apply nth_error_None in E; lia]. simpl. f_equal. apply IH. assumption.
+Qed.
+(* contract: every proposed test point and every padding point is a feasible relaxed point (C08: restriction to the
+   domain / uniform sampler); padding has the size asked for; choice(range(m), size=n, replace=False) returns n valid indices *)
+Definition spe_contract (d : domain) (n : nat) (o : speorc) : Prop :=
+  let s := fst (spe_loop n SPE_BATCH_SIZE SPE_REJECTION_SAMPLES_LIMIT (s_batches o) [] 0%Z) in
+  Forall (relaxed_ok d) (batch_rows (s_batches o)) /\ Forall (relaxed_ok d) (s_pad o) /\
+  ((length s < n)%nat -> (length s + length (s_pad o) = n)%nat) /\
+  ((n < length s)%nat -> length (s_ix o) = n /\ Forall (fun j => (j < length s)%nat) (s_ix o)) /\
+  (n <= length (o_cats (s_dec o)))%nat.
+Theorem draw_decode_ok d n o pts : wf_domain d = true -> spe_contract d n o ->
+  decode_b d (s_dec o) (fst (draw_samples n SPE_BATCH_SIZE SPE_REJECTION_SAMPLES_LIMIT (s_batches o) (s_pad o) (s_ix o))) = Some pts ->
+  Forall (Admissible d) pts /\ (length pts <= n)%nat /\ (is_int_constrained d = false -> length pts = n).
+Proof.
+  intros Hwf (Hb & Hp & Hpad & Hix & Hcat) H. unfold draw_samples in H.
+  destruct (spe_loop n SPE_BATCH_SIZE SPE_REJECTION_SAMPLES_LIMIT (s_batches o) [] 0%Z) as [s rej] eqn:El. cbn [fst] in *.
+  assert (Hs : Forall (relaxed_ok d) s).
+  { rewrite Forall_forall in *. intros x Hx. pose proof (spe_loop_sub n SPE_BATCH_SIZE SPE_REJECTION_SAMPLES_LIMIT (s_batches o) [] 0%Z x) as Q.
+    rewrite El in Q. destruct (Q Hx) as [[]|Hr]. apply Hb. exact Hr. }
+  assert (Hf : Forall (relaxed_ok d) (spe_finish n s (s_pad o) (s_ix o)) /\ length (spe_finish n s (s_pad o) (s_ix o)) = n).
+  { unfold spe_finish. destruct (Nat.ltb (length s) n) eqn:E1.
+    - apply Nat.ltb_lt in E1. split; [apply Forall_app; split; assumption|rewrite app_length; apply Hpad; exact E1].
+    - apply Nat.ltb_ge in E1. destruct (Nat.ltb n (length s)) eqn:E2.
+      + apply Nat.ltb_lt in E2. destruct (Hix E2) as [L V]. split; [|rewrite nth_rows_len; assumption].
+        rewrite Forall_forall in *. intros x Hx. apply Hs. eapply nth_rows_sub. exact Hx.
+      + apply Nat.ltb_ge in E2. split; [exact Hs|lia]. }
+  destruct Hf as [Hf1 Hf2]. unfold decode_b, decode_batch_with in H. split.
+  - eapply decode_batch_admissible; [apply choose_given_member|exact Hwf|exact Hf1|exact H].
+  - assert (Hl : (length (spe_finish n s (s_pad o) (s_ix o)) <= length (o_cats (s_dec o)))%nat) by (rewrite Hf2; exact Hcat).
+    pose proof (decode_batch_length choose_given d _ _ _ _ _ Hl H) as L. rewrite Hf2 in L. exact L.
+Qed.
+
+Theorem tail_spe_admissible d opts ps path n o r : wf_domain d = true -> (0 <= n)%Z ->
+  match path with
+  | SPERandom => random_contract d ps n (s_pcols o) (s_q o)
+  | SPEDraw => spe_contract d (Z.to_nat n) o
+  end ->
+  (forall r', spe_tail d opts ps path n o = Some r' -> opts <> [] -> draws_ok opts (length (r_points r')) (s_draws o)) ->
+  spe_tail d opts ps path n o = Some r -> resp_ok d opts (Z.to_nat n) r.
+Proof.
+  intros Hwf Hn Hc Hd H. pose proof (Hd r H) as Hdr. destruct path; cbn [spe_tail] in H.
+  - eapply tail_random_admissible; try eassumption. intros pts Hp Hne. unfold random_tail, obind in H. rewrite Hp in H. injection H as <-.
+    apply Hdr. exact Hne.
+  - unfold obind in H. match type of H with match ?e with _ => _ end = _ => destruct e as [pts|] eqn:E; [|discriminate] end.
+    injection H as <-. destruct (draw_decode_ok d (Z.to_nat n) o pts Hwf Hc E) as (A & B & C).
+    split; [exact A|]. split; [apply count_from; [exact B|intros _; exact C]|apply with_costs_ok; exact Hdr].
+Qed.
+
+(* ---- search endpoints (requests without task options) *)
+Theorem tail_search_admissible d ph u parallel af xs hist hist_oh o r :
+  wf_domain d = true -> Forall (relaxed_ok d) xs -> (length xs <= length (o_cats (g_dec o)))%nat ->
+  (forall par pts u2, convert_from_one_hot d par af (g_dec o) xs = Some pts -> kept_of d pts hist uniq_tol = Some u2 ->
+     fill_contract d (DS.zlen pts - DS.zlen u2) hist (g_choice o) (g_q o)) ->
+  search_tail d [] ph u parallel af xs hist hist_oh o = Some r -> resp_ok d [] (length xs) r.
+Proof.
+  intros Hwf Hxs Hl Hf H.
+  assert (G : exists par, gp_tail d [] par af xs hist hist_oh o = Some r).
+  { unfold search_tail in H. destruct ph; try (exists parallel; exact H). destruct (Qltb u RESOLVE_PHASE_PROB); [exists false|exists parallel]; exact H. }
+  destruct G as [par G]. eapply tail_gp_admissible; try eassumption. apply Hf.
+Qed.
+Theorem tail_spe_search_admissible d ps ph path n o r : wf_domain d = true -> (0 <= n)%Z ->
+  match ph, path with
+  | SInit, _ | SExploit, SPERandom => random_contract d ps n (s_pcols o) (s_q o)
+  | _, _ => spe_contract d (Z.to_nat n) o
+  end ->
+  spe_search_tail d [] ps ph path n o = Some r -> resp_ok d [] (Z.to_nat n) r.
+Proof.
+  intros Hwf Hn Hc H. destruct ph; cbn [spe_search_tail] in H.
+  - unfold obind in H. destruct (random_pts d ps n (s_pcols o) (s_q o)) as [pts|] eqn:E; [|discriminate]. injection H as <-.
+    assert (Hc' : random_contract d ps n (s_pcols o) (s_q o)) by (destruct path; exact Hc).
+    destruct (random_pts_ok d ps n _ _ pts Hwf Hc' E) as (A & B & C). split; [exact A|]. split; [apply count_from; [exact B|intros _; exact C]|exact I].
+  - destruct path.
+    + apply (tail_spe_admissible d [] ps SPERandom n o r Hwf Hn Hc); [intros r' _ Hne; congruence|exact H].
+    + apply (tail_spe_admissible d [] ps SPEDraw n o r Hwf Hn Hc); [intros r' _ Hne; congruence|exact H].
+  - unfold obind in H. match type of H with match ?e with _ => _ end = _ => destruct e as [pts|] eqn:E; [|discriminate] end.
+    injection H as <-. assert (Hc' : spe_contract d (Z.to_nat n) o) by (destruct path; exact Hc).
+    destruct (draw_decode_ok d (Z.to_nat n) o pts Hwf Hc' E) as (A & B & C).
+    split; [exact A|]. split; [apply count_from; [exact B|intros _; exact C]|exact I].
+Qed.
+
+(* ------------------------------------------------------------------ non-vacuity *)
+Definition ex_dom : domain :=
+  {| comps := [Double (-2) 5; Int (-3) 10; Cat [5; 1; 7]%Z; Grid [(1#4); (-3#2); (5#2)]];
+     cons := [{| weights := [1; 0; 0; 0]; rhs := (-1); cty := CDouble |}] |}.
+Definition ex_dorc : dorc := {| o_rnds := []; o_perms := []; o_cats := [[7%Z]; [7%Z]] |}.
+Definition ex_gporc : gporc :=
+  {| g_dec := ex_dorc; g_hdec := ex_dorc; g_choice := [];
+     g_q := {| q_cols := []; q_rows := [[3; (1#2); 0; 1; 0; 2]]; q_dec := {| o_rnds := []; o_perms := []; o_cats := [[1%Z]] |} |} |}.
+Example gp_tail_example :
+  wf_domain ex_dom = true /\
+  gp_tail ex_dom [] false (fun x => nth 1 x 0) [[(3#2); (13#4); (1#8); (1#4); (1#2); 2]; [(3#2); (13#4); (1#8); (1#4); (1#2); 2]]
+    [[0; 0; 5; (1#4)]] [] ex_gporc
+  = Some {| r_points := [[(3#2); 4; 7; (5#2)]; [3; 0; 1; (5#2)]]; r_costs := None |}.
+Proof. vm_compute. split; reflexivity. Qed.
